@@ -3,7 +3,8 @@ import Casket.Spec.Accounting
 import Driver.Proto
 /-
 Streams of C14.
-  c14.sched  nHosts maxConns maxFails expiry unhealthyBits nThreads events retry
+  c14.sched  nHosts maxConns maxFails expiry unhealthyBits nThreads events retry [layout]
+     layout  how the upstream block is written (not read here)
      retry   1 = try_duration > 0: a failed request goes back to selecting
      expiry  0 failures not counted (fail_timeout 0) | 1 counted, never expiring within the run | 2 counted, expiring at once
              | 3 counted, the event `w` waits for the oldest outstanding failure to expire
@@ -35,7 +36,7 @@ structure Case where
   nThreads : Nat
   events : List (Nat × Nat)
 
-def parseCase : List String → Option Case
+def parseCase8 : List String → Option Case
   | [n, mc, mf, ex, unh, nt, evs, retry] => do
     let ex ← parseExpiry ex
     let events ← if evs = "" then some [] else (evs.splitOn ",").mapM parseEvent
@@ -43,6 +44,11 @@ def parseCase : List String → Option Case
                     countFails := ex != .off, unhealthy := Driver.bits unh, retry := retry == "1" },
            ex := ex, nThreads := ← nt.toNat?, events := events }
   | _ => none
+
+/-- a ninth field says how the upstream block is WRITTEN (backends on the directive line / on `upstream` lines, order of
+the lines); the model and the judge take the block's meaning, so the field is not read -/
+def parseCase (f : List String) : Option Case :=
+  if f.length = 9 then parseCase8 (f.take 8) else parseCase8 f
 
 def showOutcome : Outcome → String
   | .ok => "ok" | .err => "err" | .cancel => "cancel" | .tooLarge => "big" | .panic => "panic"
